@@ -30,4 +30,7 @@ def f24 : Bool := true
 /-- F25: a follow path that leads to the root removes the include filter even when IncludePatterns are given -/
 def f25 : Bool := true
 
+/-- F29: copy forgets the hard-link sources recorded at or below a destination path it replaces -/
+def f29 : Bool := true
+
 end Fsm.Fix
